@@ -5,6 +5,7 @@ import Proofs.SqlInfer
 import Proofs.SqlParserTotal
 import Proofs.SqlLoadBridge
 import Proofs.SqlRegex
+import Proofs.SqlTemplates
 
 /-!
   C01 — Persisted models load back unchanged (schema, values, links).
@@ -40,6 +41,86 @@ theorem serialize_value_shape :
 theorem templates_tie : Gen.Persist.templates = modelledTemplates := rfl
 theorem orderings_tie : Gen.Persist.orderings = modelledOrderings := rfl
 theorem calls_tie : Gen.Persist.calls = modelledCalls := rfl
+
+/-- **serialize_class_as_in_source**: for EVERY class (any kind, any attribute list, any `u`) the text the model prints is what
+    Python's `%` (`pyFmt`: a generic interpreter of `%s` templates), `str.join` and `+=` make of the string constants that
+    Gen/Persist.lean reads off `serialize_class`, composed as the function composes them (`srcSerializeClass`); it never
+    raises.  A changed constant in xtuml/persist.py changes the right-hand side. -/
+theorem serialize_class_as_in_source (u : UC) (kind : Name) (attrs : List (Name × Name)) :
+    (Item.cls kind attrs).print u = srcSerializeClass u kind attrs ∧ ((Item.cls kind attrs).print u).isSome :=
+  ⟨(srcSerializeClass_eq u kind attrs).symm, rfl⟩
+
+/-- **serialize_association_as_in_source**: for EVERY association the printed text is the generated constants of
+    `serialize_association` filled in by `%`, `', '.join`, the phrase test (`if phrase:` = not empty) and the generic
+    `str.replace` on the constants `'` / `''` (`srcSerializeAssociation`); each end is `endText` -/
+theorem serialize_association_as_in_source (u : UC) (rel : Name) (s t : EndM) :
+    (Item.assoc rel s t).print u = srcSerializeAssociation rel s t ∧
+    srcEnd 0 s = some (endText s) ∧ srcEnd 5 t = some (endText t) :=
+  ⟨(srcSerializeAssociation_eq u rel s t).symm, srcEnd_eq 0 (Or.inl rfl) s, srcEnd_eq 5 (Or.inr rfl) t⟩
+
+/-- **serialize_instance_as_in_source**: for EVERY row (any values, set or unset, also when a value cannot be printed: then
+    both sides are `none`, and `inst_print_none_iff` below says exactly when) the printed text is the head constant
+    filled with the kind, the loop of `serialize_instance` with its counter (`attr_count < len(attributes)` selects the
+    `, -- %s : %s` constant, otherwise ` -- %s : %s`) and the tail constant -/
+theorem serialize_instance_as_in_source (u : UC) (kind : Name) (attrs : List (Name × Name)) (vals : List (Option Val)) :
+    (Item.inst kind attrs vals).print u = srcSerializeInstance u kind attrs vals :=
+  (srcSerializeInstance_eq u kind attrs vals).symm
+
+/-- the error ending of the previous theorem made explicit: a row prints unless its value lines do not -/
+theorem inst_print_none_iff (u : UC) (kind : Name) (attrs : List (Name × Name)) (vals : List (Option Val)) :
+    srcSerializeInstance u kind attrs vals = none ↔ valueLines u attrs vals = none := by
+  rw [srcSerializeInstance_eq]
+  simp only [Item.print]
+  cases valueLines u attrs vals <;> simp
+
+/-- **index_line_as_in_source**: the `CREATE UNIQUE INDEX` line is written out separately in three functions of
+    xtuml/persist.py; for EVERY index each of the three texts is the model's one -/
+theorem index_line_as_in_source (u : UC) (name kind : Name) (attrs : List Name) :
+    srcIndexLine "serialize_unique_identifiers" 1 name kind attrs = (Item.index name kind attrs).print u ∧
+    srcIndexLine "persist_unique_identifiers" 1 name kind attrs = (Item.index name kind attrs).print u ∧
+    srcIndexLine "persist_database" 1 name kind attrs = (Item.index name kind attrs).print u :=
+  ⟨srcIndexLine_eq u _ 1 ⟨Or.inl rfl, rfl⟩ name kind attrs, srcIndexLine_eq u _ 1 ⟨Or.inr (Or.inl rfl), rfl⟩ name kind attrs,
+   srcIndexLine_eq u _ 1 ⟨Or.inr (Or.inr rfl), rfl⟩ name kind attrs⟩
+
+/-- **routes_as_in_source**: for EVERY metamodel each writer route of the model is the iteration the generated `orderings`
+    name, in the nesting of the function: the iterable expressions are interpreted (`srcClassIter`: sorted keys / dict
+    values, `srcAssocIter`: the sort with the key lambda the table gives, `srcInstIter`, `srcIndexIter`), so another
+    iterable or sort key in the source gives `none` or another list on the left -/
+theorem routes_as_in_source (u : UC) (m : MM) :
+    (srcClassIter u m (ord "serialize_classes" 0)).map (·.map ClassM.item) = some (m.serializeClasses u) ∧
+    (srcAssocIter m (ord "serialize_associations" 1) (ord "serialize_associations" 0)).map (·.map AssocM.item) =
+      some m.serializeAssociations ∧
+    srcInstIter m (ord "serialize_instances" 0) = some m.serializeInstances ∧
+    (srcClassIter u m (ord "serialize_unique_identifiers" 0)).bind
+        (fun cs => (mapOpt (fun c => srcIndexIter c (ord "serialize_unique_identifiers" 1)) cs).map List.flatten) =
+      some (m.serializeUniqueIdentifiers u) ∧
+    srcInstIter m (ord "persist_instances" 0) = some m.persistInstances ∧
+    ((srcClassIter u m (ord "persist_schema" 0)).bind fun cs =>
+      (srcAssocIter m (ord "persist_schema" 1) (ord "persist_schema" 2)).map fun as =>
+        cs.map ClassM.item ++ as.map AssocM.item) = some (m.persistSchema u) ∧
+    (srcClassIter u m (ord "persist_unique_identifiers" 0)).bind
+        (fun cs => (mapOpt (fun c => srcIndexIter c (ord "persist_unique_identifiers" 1)) cs).map List.flatten) =
+      some m.persistUniqueIdentifiers ∧
+    ((srcClassIter u m (ord "persist_database" 0)).bind fun cs =>
+      (mapOpt (fun c => (srcIndexIter c (ord "persist_database" 1)).map (c.item :: ·)) cs).bind fun cis =>
+      (srcAssocIter m (ord "persist_database" 2) (ord "persist_database" 3)).bind fun as =>
+      (srcInstIter m (ord "persist_database" 4)).map fun is =>
+        cis.flatten ++ as.map AssocM.item ++ is) = some (m.persistDatabase u) :=
+  routes_orderings u m
+
+/-- non-vacuity: the interpreter really formats, rejects a wrong argument count and an uninterpreted conversion, and the
+    interpretation of a concrete class / association / row is the expected text -/
+example : pyFmt "a %s b %s".toList ["X".toList, "Y".toList] = some "a X b Y".toList ∧
+    pyFmt "%s %s".toList ["X".toList] = none ∧ pyFmt "%s".toList ["X".toList, "Y".toList] = none ∧
+    pyFmt "%d".toList ["X".toList] = none := by decide
+example : srcSerializeClass UC.ascii "A".toList [("Id".toList, "integer".toList), ("N".toList, "string".toList)] =
+    some "CREATE TABLE A (\n    Id INTEGER,\n    N STRING\n);\n".toList := by decide
+example : srcSerializeAssociation "R1".toList ⟨false, true, "A".toList, ["x".toList, "y".toList], "it's".toList⟩
+      ⟨true, false, "B".toList, ["Id".toList], []⟩ =
+    some "CREATE ROP REF_ID R1 FROM 1C A (x, y) PHRASE 'it''s' TO M B (Id);\n".toList := by decide
+example : srcSerializeInstance UC.ascii "A".toList [("M".toList, "String".toList), ("N".toList, "string".toList)]
+      [some (.str "o'k".toList), none] =
+    some "INSERT INTO A VALUES (\n    'o''k', -- M : String\n    '' -- N : string\n);\n".toList := by decide
 /-- the regular expressions and the grammar the lexer / parser were modelled from -/
 theorem regex_tie (r : Rule) : Rule.regex r = modelledRegex r := by cases r <;> rfl
 theorem grammar_tie : Gen.SqlLex.grammar = modelledGrammar ∧ Gen.SqlLex.cardinalityChecks = modelledCardinalityChecks :=
